@@ -26,6 +26,7 @@ type Plan struct {
 	Before   []int       `json:"before"`             // yields before adding children, per item
 	After    []int       `json:"after"`              // yields after adding children, per item
 	WaitFor  []int       `json:"wait_for,omitempty"` // per item: after adding its children, f blocks until this child (index into children) has started; -1 none
+	NilItem  int         `json:"nil_item,omitempty"` // 1+index of the item that is represented by an untyped nil (0: none)
 	Sched    simrt.Sched `json:"sched"`
 }
 
@@ -36,9 +37,22 @@ func genPlan(t *rapid.T, tier string) any {
 	}
 	n := rapid.IntRange(1, maxItems).Draw(t, "items")
 	p := &Plan{Workers: rapid.IntRange(1, 4).Draw(t, "workers")}
+	// wide plans: few workers, a long backlog and items that fan out widely (queue-size
+	// dependent behaviour: batching, back-pressure, growth of the pending list)
+	wide := rapid.IntRange(0, 3).Draw(t, "wide") == 0
+	maxKids, maxInit := 3, 3
+	if wide {
+		n = rapid.IntRange(12, 40).Draw(t, "wideitems")
+		p.Workers = rapid.IntRange(1, 2).Draw(t, "wideworkers")
+		maxKids, maxInit = 24, n
+	}
 	for i := 0; i < n; i++ {
 		// children may repeat, point backwards, at the item itself, or form cycles
-		p.Children = append(p.Children, rapid.SliceOfN(rapid.IntRange(0, n-1), 0, 3).Draw(t, "children"))
+		mk := 3
+		if wide && rapid.IntRange(0, 5).Draw(t, "fanout") == 0 {
+			mk = maxKids
+		}
+		p.Children = append(p.Children, rapid.SliceOfN(rapid.IntRange(0, n-1), 0, mk).Draw(t, "children"))
 		p.Before = append(p.Before, rapid.IntRange(0, 2).Draw(t, "before"))
 		p.After = append(p.After, rapid.IntRange(0, 2).Draw(t, "after"))
 		w := -1
@@ -47,7 +61,10 @@ func genPlan(t *rapid.T, tier string) any {
 		}
 		p.WaitFor = append(p.WaitFor, w)
 	}
-	p.Initial = rapid.SliceOfN(rapid.IntRange(0, n-1), 0, 3).Draw(t, "initial")
+	p.Initial = rapid.SliceOfN(rapid.IntRange(0, n-1), 0, maxInit).Draw(t, "initial")
+	if rapid.IntRange(0, 3).Draw(t, "nilitem") == 0 {
+		p.NilItem = 1 + rapid.IntRange(0, n-1).Draw(t, "whichnil")
+	}
 	p.Sched = gen.Sched(t, 400)
 	return p
 }
@@ -104,11 +121,21 @@ func run(t *testing.T, plan any, keep bool) *simcheck.Outcome {
 	// 50x the longest fault-free run seen for these sizes (about 400 decisions)
 	rep := simrt.Run(t, simrt.Options{Sched: p.Sched, Strict: true, MaxSteps: 20000, KeepTrace: keep}, func(s *simrt.Sim) {
 		var w par.Work
+		// items are ints, except that one of them may be the untyped nil (a valid map key)
+		key := func(i int) any {
+			if p.NilItem == i+1 {
+				return nil
+			}
+			return i
+		}
 		for _, i := range p.Initial {
-			w.Add(i)
+			w.Add(key(i))
 		}
 		w.Do(p.Workers, func(item any) {
-			i := item.(int)
+			i := p.NilItem - 1
+			if item != nil {
+				i = item.(int)
+			}
 			if returned {
 				out.Violate("call-after-return", "f(%d) called after Do returned", i)
 			}
@@ -134,7 +161,7 @@ func run(t *testing.T, plan any, keep bool) *simcheck.Outcome {
 				simrt.Yield("f.before")
 			}
 			for _, c := range p.Children[i] {
-				w.Add(c)
+				w.Add(key(c))
 			}
 			if c, ok := waits[i]; ok && !started[c] {
 				rendezvous++
@@ -196,7 +223,7 @@ func run(t *testing.T, plan any, keep bool) *simcheck.Outcome {
 var harness = &simcheck.Harness{
 	Property: "C09",
 	Level:    "exploration",
-	Rule: "rapid draws a worker count (1-4), an item graph (children lists with duplicates, self loops and cycles), the initial adds, " +
+	Rule: "rapid draws a worker count (1-4), an item graph (children lists with duplicates, self loops and cycles; a quarter of the plans are wide: 1-2 workers, 12-40 items, long initial backlog, fan-out up to 24; one item may be the untyped nil), the initial adds, " +
 		"yield counts inside f, rendezvous points (a call of f waits until a child it added has started; at most n-1 items may wait), and a schedule (pct with change points / uniform random / sticky); a case is non-trivial when at least two " +
 		"different runner tasks executed f, and distinct by the hash of its full decision trace (task, seam) sequence",
 	Gen:     genPlan,
